@@ -27,7 +27,38 @@ def run(ctx):
         # (not ranked), no DemeLimit in front of the level limit: whatever it is offered, LevelLimit never lets
         # more through than there are free slots (monitors only: the model knows the shipped generators)
         runs.monitor_batch(ctx, PID, ctx.size(50, 500), salt=45, name="traced-runs-monitor-C08(user-defined generator, unranked candidates)", force=_user_generator),
+        fault_census(ctx, ctx.size(30, 300)),
     ]
+
+
+def fault_census(ctx, n):
+    """the objective fails while a child is being constructed and the run goes on (the C07 fault-injection runs):
+    after every step no non-root level has more active demes than the level limit"""
+    from ..common import Slice, pmap
+    from . import c07
+
+    sl = Slice("objective fails during sprouting; the run goes on (active demes per level after every step)")
+    n = ctx.boost(n) if hasattr(ctx, "boost") else n
+    rng = ctx.rng(69)
+    args = []
+    for _ in range(n):
+        spec = runs.rand_spec(rng, nlev=int(rng.choice([2, 3])), engines={0: ["sea", "de", "shade", "ga"], 1: ["sea", "de", "shade", "cma"], 2: ["sea", "de", "cma"]},
+                              gsc={"kind": "MetaepochLimit", "limit": 8}, max_steps=8, cutoff=None)
+        args.append((spec, int(rng.integers(1, 12)), int(rng.integers(1, 12))))
+    for (spec, a, b), r in zip(args, pmap(c07._fault_worker, args, chunksize=2)):
+        if r["status"] != "ok":
+            sl.skipped += 1
+            continue
+        sl.cases += 1
+        if r["faults"]:
+            sl.nontrivial.add(runs.spec_id(spec))
+        L = spec["sprout"]["level_limit"]
+        for k, counts in enumerate(r["census"]):
+            over = [(lv, c) for lv, c in enumerate(counts) if lv >= 1 and c > L]
+            if over:
+                sl.violations.append({"signature": "C08/level-limit-exceeded(after a failed sprout)", "detail": f"after step {k + 1}: level {over[0][0]} has {over[0][1]} active demes, the level limit is {L} ({r['faults']} injected fault(s) in the run)", "replay": {"spec": spec, "faults_at": [a, b]}})
+                break
+    return sl
 
 
 def _user_generator(rng):
